@@ -221,6 +221,10 @@ func runC19(c c19Case, protos []vt.NamedProto) []string {
 		if st := direct.A.Push(c.Method, append([]byte(nil), c.Body...), c.settings(true)...); !st.OK() {
 			return []string{"direct push failed: " + st.String()}
 		}
+		// the direct push has arrived before the proxied one is sent: pushes[0] is the direct one
+		if !vt.WaitUntilFor(5*time.Second, func() bool { be.mu.Lock(); defer be.mu.Unlock(); return len(be.pushes) >= 1 }) {
+			return []string{"the direct push did not reach the backend"}
+		}
 		if st := c2p.A.Push(c.Method, append([]byte(nil), c.Body...), c.settings(true)...); !st.OK() {
 			return []string{"proxied push failed to send: " + st.String()}
 		}
@@ -243,6 +247,19 @@ func runC19(c c19Case, protos []vt.NamedProto) []string {
 		}
 		if a, b := metaWithout(d.Meta, erpc.MetaRealIP), metaWithout(p.Meta, erpc.MetaRealIP); strings.Join(a, "&") != strings.Join(b, "&") {
 			failf("proxied push metadata differs: direct %v proxied %v", a, b)
+		}
+		var pushIPs []string
+		for _, kv := range p.Meta {
+			if kv.K == erpc.MetaRealIP {
+				pushIPs = append(pushIPs, kv.V)
+			}
+		}
+		wantPushIP := c.RealIP
+		if wantPushIP == "" {
+			wantPushIP = c2p.B.RemoteAddr().String()
+		}
+		if len(pushIPs) != 1 || pushIPs[0] != wantPushIP {
+			failf("backend saw real-IP metadata %v on the proxied push, want exactly [%s]", pushIPs, wantPushIP)
 		}
 		return fails
 	}
